@@ -135,7 +135,18 @@ func c07Run(rc *sim.RunCtx) {
 		sc := &sim.StepCounter{Cap: 150000}
 		restore := sc.Install()
 		defer restore()
-		ret, err := vm.Run(w.Globals, ugo.Int(3), ugo.String("arg"))
+		var ret ugo.Object
+		var err error
+		func() {
+			defer func() {
+				// no host panic is injected when recovery is off, and recovery on must hold everything back:
+				// whatever arrives here was raised by the VM itself
+				if r := recover(); r != nil {
+					err = fmt.Errorf("Go panic escaped from VM.Run (recovery %v): %s at %s", recoverOn, msgClass(r), panicSite("github.com/ozanh/ugo"))
+				}
+			}()
+			ret, err = vm.Run(w.Globals, ugo.Int(3), ugo.String("arg"))
+		}()
 		res := c08Result{out: sim.MakeOutcome(ret, err, w.Hist)}
 		if sc.Capped {
 			res.trace = "capped"
